@@ -322,6 +322,17 @@ def run_e2e(work, cases):
                 kw['templates_dir'] = dirs
             g = DSDLCodeGenerator(ns, **kw) if c['policy'] == 'FIND_FIRST' else AllPolicyGenerator(ns, ResourceSearchPolicy.FIND_ALL, **kw)
             todo = [(type(t).__name__, pathlib.Path(o)) for t, o in ns.get_all_datatypes()]
+            # observe the template _generate_type asks the environment for (calls without a parent template; include/extends pass one)
+            # and the FILE it was loaded from; the generator, its loader and generate_all are the real ones
+            top_level = []
+            real_get_template = g._env.get_template
+
+            def recording_get_template(name, parent=None, globals=None):
+                t = real_get_template(name, parent, globals)
+                if parent is None:
+                    top_level.append(t.filename)
+                return t
+            g._env.get_template = recording_get_template
             err = None
             try:
                 g.generate_all(omit_serialization_support=True)
@@ -330,12 +341,21 @@ def run_e2e(work, cases):
             except RuntimeError as ex:
                 err = 'T' if 'No template found' in str(ex) else 'ERR:' + repr(ex)[:120]
             outs = []
-            for _, o in todo:
-                if not o.exists():
-                    outs.append(err if err is not None else 'ERR:missing output')
+            for k, (_, o) in enumerate(todo):
+                if k >= len(top_level) or not o.exists():
+                    outs.append(err if err is not None else 'ERR:missing output or template')
                     break
-                head = o.read_text().split('\n', 1)[0]
-                outs.append('R:' + head[len('RENDERED:'):].strip() if head.startswith('RENDERED:') else 'R:P')
+                fn = os.path.realpath(top_level[k])
+                tag = 'R:P'
+                for i, dpath in enumerate(dirs or []):
+                    base = os.path.realpath(str(dpath)) + os.sep
+                    if fn.startswith(base):
+                        tag = 'R:U%d:%s' % (i, fn[len(base):].replace(os.sep, '/'))
+                        head = o.read_text().split('\n', 1)[0]
+                        if head.strip() != 'RENDERED:' + tag[2:]:
+                            tag = 'ERR:output of %s does not start with the marker of %s' % (o.name, tag)
+                        break
+                outs.append(tag)
             out.append({'seq': [cn for cn, _ in todo][:len(outs)], 'out': outs})
         except Exception as ex:  # noqa
             out.append({'err': repr(ex)[:300]})
